@@ -97,6 +97,7 @@ pub fn gen_case(seed: u64, idx: u64, pairs: usize) -> Case {
         _ => b"xyzXYZ019".to_vec(),
     };
     let maxlen = if unique { 6 } else { *rng.pick(&[1usize, 2, 2, 3]) };
+    let with_empty_key = rng.chance(1, 3);
     let mut files: Vec<Vec<(String, u64)>> = vec![Vec::new(); nfiles];
     let mut seen: BTreeSet<String> = BTreeSet::new();
     let mut guard = 0;
@@ -108,6 +109,11 @@ pub fn gen_case(seed: u64, idx: u64, pairs: usize) -> Case {
         // trimming happens in the reader, but an all-blank key is avoided
         if k.trim().is_empty() {
             k = "k".to_string();
+        }
+        // the empty byte string is a key like any other: a blank line for
+        // `fst set`, an empty first field for `fst map`
+        if with_empty_key && rng.chance(1, 6) {
+            k = String::new();
         }
         if unique && !seen.insert(k.clone()) {
             continue;
@@ -203,6 +209,9 @@ fn account(st: &mut WStats, idx: u64, case: &Case, run: &crate::world::CaseRun) 
     st.cases += 1;
     let mut input_d = Digest::new();
     input_d.str(&case_to(&Case { input: case.input.clone(), runs: vec![] }).to_string());
+    if case.input.files.iter().any(|f| f.iter().any(|(k, _)| k.is_empty())) {
+        bump(&mut st.counters, "input.contains_the_empty_key", 1);
+    }
     if case.input.trailing_newline.iter().any(|b| !*b) {
         bump(&mut st.counters, "input.file_without_trailing_newline", 1);
     }
@@ -780,7 +789,7 @@ fn run_parent(args: &[String]) -> i32 {
         },
         "assumptions": [
             "sampling, not proof: a clean batch is evidence over the explored inputs, configurations and schedules only",
-            "inputs are well-formed (non-empty keys without CR/LF/quote/comma, values small enough that a sum cannot overflow u64, fd-limit >= 2): the command's own error path is outside C19",
+            "inputs are well-formed (keys, the empty key included, without CR/LF/quote/comma, values small enough that a sum cannot overflow u64, fd-limit >= 2): the command's own error path is outside C19",
             "pre-emption happens at synchronisation points (thread spawn/exit, channel operations, mutex/condvar inside the channel shim); file operations between two such points are atomic in the simulation",
         ],
         "wall_s": (wall * 1000.0).round() / 1000.0,
